@@ -906,7 +906,8 @@ class GroupBy:
             for j, result in enumerate(results_one_value):
                 result = result[:-1]  # ignore null group
                 if self._group_key_pointers is None:
-                    pointer = slice(None)
+                    # codes are already global: all labels, without the null slot
+                    pointer = slice(0, len(self._result_index))
                 else:
                     pointer = self._group_key_pointers[first_chunk_in + j]
                 combined[pointer] = numba_funcs.reduce_array_pair(
